@@ -150,10 +150,64 @@ func corpus(maxSize int) []Spec {
 
 // drawSpecs: random documents of the profiles that put maps on the output path
 // (many headers, media types, sums, pattern properties, hostile names).
+// drawMediaDoc: operations whose request bodies and responses carry SEVERAL content types, wildcard
+// masks among them (image/*, */*), with and without declared headers, under concrete codes, patterns
+// and default: the generator keeps contents in Go maps keyed by content type.
+func drawMediaDoc(t *rapid.T) string {
+	media := []string{"application/json", "text/plain", "image/*", "*/*", "application/octet-stream", "application/x-www-form-urlencoded", "multipart/form-data", "application/problem+json"}
+	schemaFor := func(ct string) map[string]any {
+		switch ct {
+		case "application/json", "application/problem+json":
+			return map[string]any{"type": "object", "properties": map[string]any{"a": map[string]any{"type": "string"}, "n": map[string]any{"type": "integer"}}}
+		case "text/plain":
+			return map[string]any{"type": "string"}
+		case "application/x-www-form-urlencoded", "multipart/form-data":
+			return map[string]any{"type": "object", "properties": map[string]any{"f": map[string]any{"type": "string"}}}
+		default:
+			return map[string]any{"type": "string", "format": "binary"}
+		}
+	}
+	content := func(label string, request bool) map[string]any {
+		out := map[string]any{}
+		n := rapid.IntRange(1, 4).Draw(t, label+"-n")
+		for _, ct := range rapid.Permutation(media).Draw(t, label+"-perm")[:n] {
+			if !request && (ct == "application/x-www-form-urlencoded" || ct == "multipart/form-data") {
+				continue
+			}
+			out[ct] = map[string]any{"schema": schemaFor(ct)}
+		}
+		if len(out) == 0 {
+			out["application/json"] = map[string]any{"schema": schemaFor("application/json")}
+		}
+		return out
+	}
+	paths := map[string]any{}
+	for i, nops := 0, rapid.IntRange(2, 5).Draw(t, "nops"); i < nops; i++ {
+		op := map[string]any{"operationId": fmt.Sprintf("m%d", i)}
+		if rapid.Bool().Draw(t, "body") {
+			op["requestBody"] = map[string]any{"required": rapid.Bool().Draw(t, "breq"), "content": content("req", true)}
+		}
+		rs := map[string]any{}
+		for _, code := range rapid.Permutation([]string{"200", "201", "4XX", "default", "404"}).Draw(t, "codes")[:rapid.IntRange(1, 3).Draw(t, "ncodes")] {
+			r := map[string]any{"description": "r", "content": content("resp"+code, false)}
+			if rapid.IntRange(0, 2).Draw(t, "hdr") == 0 {
+				r["headers"] = map[string]any{"X-H": map[string]any{"schema": map[string]any{"type": "string"}}}
+			}
+			rs[code] = r
+		}
+		op["responses"] = rs
+		paths[fmt.Sprintf("/m%d", i)] = map[string]any{"post": op}
+	}
+	b, _ := json.Marshal(map[string]any{"openapi": "3.0.3", "info": map[string]any{"title": "t", "version": "1"}, "paths": paths})
+	return string(b)
+}
+
 func drawSpecs(t *rapid.T, n int) []Spec {
 	var out []Spec
 	for i := 0; i < n; i++ {
-		switch rapid.IntRange(0, 2).Draw(t, "profile") {
+		switch rapid.IntRange(0, 3).Draw(t, "profile") {
+		case 3:
+			out = append(out, Spec{Name: fmt.Sprintf("media%d", i), Text: drawMediaDoc(t)})
 		case 0:
 			d := specgen.GenExchangeDoc(t, specgen.ExchangeOptions{Formats: true, TimeFormat: "date-time", Validators: true, Docs: true})
 			out = append(out, Spec{Name: fmt.Sprintf("exchange%d", i), Text: string(d.Render())})
@@ -522,6 +576,46 @@ func TestRecursiveSchemas(t *testing.T) {
 			}
 			if digest(files, class) != digest(ref, refClass) {
 				return vk.F("output-differs-between-runs", "recursive schemas: generation %d differs from the first one: %s", i+1, firstDiff(ref, files))
+			}
+		}
+		if refClass == "ok" {
+			u.NonTrivial(c.Spec.Text)
+			u.Sample(map[string]any{"spec": trim(c.Spec.Text, 600), "files": len(ref)})
+		}
+		u.Label("outcome:" + strings.SplitN(refClass, ":", 2)[0])
+		return nil
+	})
+}
+
+// ---- unit: media-types ----------------------------------------------------------------------
+// Documents whose bodies and responses carry several content types, wildcard masks among them
+// (drawMediaDoc), generated 8 times each in one process and compared byte for byte.
+
+func TestMediaTypes(t *testing.T) {
+	if os.Getenv("VERIF_C10_WORKER") != "" {
+		return
+	}
+	u := vk.New(t, "C10", "media-types")
+	defer u.Close()
+	draw := func(t *rapid.T) recCase { return recCase{Spec: Spec{Name: "media", Text: drawMediaDoc(t)}} }
+	vk.Rapid(u, vk.N(64, 2400), nil, draw, func(c recCase) *vk.Finding {
+		var ref map[string]string
+		var refClass string
+		for i := 0; i < 8; i++ {
+			files, class := generate(c.Spec)
+			u.Eval(1)
+			if strings.HasPrefix(class, "panic") {
+				return vk.F("generator-panic", "%s", trim(class, 1500))
+			}
+			if i == 0 {
+				ref, refClass = files, class
+				continue
+			}
+			if class != refClass {
+				return vk.F("outcome-differs-between-runs", "several content types: generation 1 %q, generation %d %q", refClass, i+1, class)
+			}
+			if digest(files, class) != digest(ref, refClass) {
+				return vk.F("output-differs-between-runs", "several content types: generation %d differs from the first one: %s", i+1, firstDiff(ref, files))
 			}
 		}
 		if refClass == "ok" {
